@@ -145,6 +145,13 @@ class JSSPDomainWallHamiltonianEncoder:
 
     def _prepare_encoding(self) -> None:
         """Counts the needed qubits to encode the problem and assigns the necessary domain wall variables"""
+        # Start from empty caches: a preparation which was aborted by the ValueError below (the makespan_limit was
+        # too small for some job) must not leave variables, qubits or machine entries behind for the next attempt.
+        self._machine_operations = {}
+        self._operation_start_variables = {}
+        self._operation_constraint_counts = {}
+        self._n_qubits = 0
+
         for job in self.jssp_instance.jobs:
             # keep track of the start and end bounds for an operation given by the length of the preceding
             # subsequent operations of a job
